@@ -1,6 +1,9 @@
 //! Verification hooks: read-only access to crate-private functions for the external
 //! proof/correspondence machinery. Compiled only with the `verif_hooks` feature.
-use std::sync::atomic::{AtomicU64, Ordering};
+use std::{
+    cell::Cell,
+    sync::atomic::{AtomicU64, Ordering},
+};
 
 use crate::{error::Error, lexer, value::Value};
 
@@ -71,4 +74,47 @@ pub fn counters() -> [u64; 4] {
         COUNTERS[2].load(Ordering::Relaxed),
         COUNTERS[3].load(Ordering::Relaxed),
     ]
+}
+
+thread_local! {
+    static DEPTH: Cell<[u32; 4]> = const { Cell::new([0; 4]) };
+    static MAX_DEPTH: Cell<[u32; 4]> = const { Cell::new([0; 4]) };
+}
+
+/// An active frame of recursion family `i`; leaving the scope pops it.
+pub struct Frame(usize);
+
+/// Enters a frame of recursion family `i` (0 = value path, 1 = text walk, 2 = merger,
+/// 3 = subset) on the current thread and records the deepest nesting seen.
+#[must_use]
+pub fn enter(i: usize) -> Frame {
+    let mut depth = DEPTH.get();
+    depth[i] += 1;
+    DEPTH.set(depth);
+    let mut max = MAX_DEPTH.get();
+    if depth[i] > max[i] {
+        max[i] = depth[i];
+        MAX_DEPTH.set(max);
+    }
+    Frame(i)
+}
+
+impl Drop for Frame {
+    fn drop(&mut self) {
+        let mut depth = DEPTH.get();
+        depth[self.0] = depth[self.0].saturating_sub(1);
+        DEPTH.set(depth);
+    }
+}
+
+/// Resets the recorded nesting of the current thread.
+pub fn reset_depth() {
+    DEPTH.set([0; 4]);
+    MAX_DEPTH.set([0; 4]);
+}
+
+/// Deepest nesting per recursion family seen on the current thread since the last reset.
+#[must_use]
+pub fn max_depth() -> [u32; 4] {
+    MAX_DEPTH.get()
 }
